@@ -11,7 +11,13 @@ def register(op):
     class CplxB(bc.ComplexS): pass
     class MacA(bc.MacrostateS): pass
     class RxnA(bc.ReactionS): pass
-    DOM = [bc.DomainS, DomA, DomB]
+    class DomC(bc.DomainS):          # sibling registries with other class constants
+        DTYPE_CUTOFF = 10
+        SHORT_DOM_LEN = 9
+    class DomD(bc.DomainS):
+        DTYPE_CUTOFF = 6
+        LONG_DOM_LEN = 7
+    DOM = [bc.DomainS, DomA, DomB, DomC, DomD]
     CPLX = [bc.ComplexS, CplxA, CplxB]
     MAC = [bc.MacrostateS, MacA]
     RXN = [bc.ReactionS, RxnA]
